@@ -71,7 +71,8 @@ Section RunG.
             | b0 :: _ =>
                 let n := nth 0 par 0 in
                 fin (msm_chunks GO true nb N (2 ^ 20)
-                       (long_stream (Z.to_nat n) 0 (fun i => nth (Z.to_nat (i mod Z.of_nat (length bs))) bs b0))
+                       (* par[1] more bases than scalars: the stream alignment skips them ONCE, before the first chunk *)
+                       (long_stream (Z.to_nat (n + nth 1 par 0)) 0 (fun i => nth (Z.to_nat (i mod Z.of_nat (length bs))) bs b0))
                        (long_stream (Z.to_nat n) 0 (fun i => sparse_lookup i fks)))
             end
     | 9 => fin (cp_run GO (msm_bigint GO true nb) (nth 0 par 0) (combine bs lks))
